@@ -4,4 +4,6 @@ NoDev == {}
 Stamp == {"D_StampSkipsRun"}
 NoBlind == {}
 BlindUpperSettings == {"upper", "settings"}
+\* a make-style "page is newer than its source" test sees neither the settings nor a back-dated source
+BlindSettingsBackdated == {"settings", "backdated"}
 =============================================================================
